@@ -36,7 +36,17 @@ EncEvOK(ev) ==
   /\ ev.o = "ok" /\ ev.r >= 1 /\ ev.n >= ev.r /\ Len(ev.rows) = ev.r
   /\ LET H == Dense(ev.rows, ev.n) IN VerdictOK(ev, H) /\ PairsOK(ev, H)
 
-OK(ev) == CASE ev.e = "Enc" -> EncEvOK(ev) [] OTHER -> FALSE
+\* src/gf2.rs: the field operations in all operator forms; division by zero panics (documented), nothing else does
+Gf2OK(ev) ==
+  /\ ev.o = "ok"
+  /\ CASE ev.op = "add" -> ~ev.panicked /\ ev.res = Add(ev.a, ev.b)
+       [] ev.op = "sub" -> ~ev.panicked /\ ev.res = Add(ev.a, ev.b)
+       [] ev.op = "mul" -> ~ev.panicked /\ ev.res = Mul(ev.a, ev.b)
+       [] ev.op = "div" -> IF DivDefined(ev.a, ev.b) THEN ~ev.panicked /\ ev.res = Div(ev.a, ev.b) ELSE ev.panicked
+       [] OTHER -> FALSE
+Gf2SumOK(ev) == ev.o = "ok" /\ ev.res = SumBits(ev.bits, Len(ev.bits))
+
+OK(ev) == CASE ev.e = "Enc" -> EncEvOK(ev) [] ev.e = "Gf2" -> Gf2OK(ev) [] ev.e = "Gf2Sum" -> Gf2SumOK(ev) [] OTHER -> FALSE
 
 Init == l = 1
 Step == /\ l <= NRec
